@@ -94,7 +94,7 @@ def build(S):
             return env, ctx.lookup('quats'), ctx.lookup('good_indices'), ctx.lookup('atom_positions')
 
         def replay_for(model):
-            return {'kind': 'tolerance-boundary', 'input': {}, 'key': 'recheck-guard',
+            return {'kind': 'tolerance-boundary', 'input': {}, 'key': 'recheck-guard', 'generic': True,
                     'what': 'a copy with two atoms displaced by 1.0008*atol in opposite directions is accepted somewhere in the cell'}
 
         paths = I.explore(thunk)
